@@ -334,3 +334,25 @@ def aromatic_p_ambiguity(m):
         if three and two:
             return True
     return False
+
+
+def fused_cp_anion(m):
+    """a ring carbanion or azolium nitrogen inside a five-membered ring whose fused ring system (rings sharing bonds) holds a
+    second five-membered ring (azapentalenide, pyrazolo-pyrazolium, benzo-bis-pyrazolium type): routes to the known finding on
+    standardize_charges() choosing a charge position without Kekule structure"""
+    rings = [set(r) for r in m.sssr]
+    for n, a in m.atoms():
+        if (a.atomic_number == 6 and a.charge == -1) or (a.atomic_number == 7 and a.charge == 1):
+            for i, r in enumerate(rings):
+                if len(r) != 5 or n not in r:
+                    continue
+                seen, stack = {i}, [i]
+                while stack:
+                    k = stack.pop()
+                    for j, o in enumerate(rings):
+                        if j not in seen and len(o & rings[k]) >= 2:
+                            if len(o) == 5:
+                                return True
+                            seen.add(j)
+                            stack.append(j)
+    return False
